@@ -167,6 +167,12 @@ pub fn run(ctx: &Ctx) -> usize {
       let y = rng.range(2, 9997);
       wins.push(Window { start: Start::Ymd(y, 12, 10), days: 60 });
     }
+    // two days in mid-January of every year: where one wrong entry of the leap-month table shows in the lunar-day route
+    for y in 30..=9997i64 {
+      if !(236..=240).contains(&y) {
+        wins.push(Window { start: Start::Ymd(y, 1, 15), days: 2 });
+      }
+    }
   }
   let a = walk_days(ctx, "Trace_C17", wins, day_line);
   let years: Vec<i64> = if ctx.quick() {
